@@ -131,6 +131,9 @@ def corrupt_all(ctx, c):
             for n in sub:
                 d.ds[n] = (("time", "x"), d.ds[n].values.T.copy())
         one(ctx, c, "transposed", "pos", f"{'+'.join(sub)} stored as (time, x), the other intensities as (x, time)", transpose_some)
+        # with scalar variances nothing downstream can stumble over the shapes: the orientation check itself has to refuse
+        one(ctx, c, "transposed", "pos", f"{'+'.join(sub)} stored as (time, x), the other intensities as (x, time); scalar variances",
+            transpose_some, kw={n + "_var": float(np.mean(c.var_mats[n])) for n in names})
     one(ctx, c, "bad_method", "pos", "method='nonsense'", kw={"method": "nonsense"})
     one(ctx, c, "bad_solver", "pos", "solver='nonsense'", kw={"solver": "nonsense"})
     if c.double:
